@@ -128,10 +128,6 @@ impl Sched {
         true
     }
 
-    pub fn state(&self, idx: usize) -> TState {
-        self.inner.slots.lock().unwrap()[idx].state.clone()
-    }
-
     pub fn states(&self) -> Vec<TState> {
         self.inner.slots.lock().unwrap().iter().map(|s| s.state.clone()).collect()
     }
@@ -182,12 +178,9 @@ pub struct RunTrace {
 /// The next schedule prefix in depth-first order after a completed run:
 /// the longest prefix that can be followed by a not yet tried enabled
 /// thread. `None` when the space is exhausted.
-pub fn next_prefix(trace: &RunTrace) -> Option<Vec<usize>> {
-    next_prefix_below(trace, 0)
-}
-
-/// The same, never changing the first `root` choices (the depth-first order
-/// inside the subtree of that root).
+///
+/// The first `root` choices are never changed (depth-first order inside the
+/// subtree of that root; `root = 0` for the whole space).
 pub fn next_prefix_below(trace: &RunTrace, root: usize) -> Option<Vec<usize>> {
     for i in (root..trace.choices.len()).rev() {
         let cur = trace.choices[i];
